@@ -392,6 +392,23 @@ MissedPoStFaulted(pre, e, lost) ==
                  LET pt1 == M1.dls[d].parts[p] IN
                  p \in Idx(M2.dls[d].parts) /\ Live(pt1) \subseteq (F_(M2.dls[d].parts[p]) \cup T_(M2.dls[d].parts[p]))
 
+\* C15 "every early-terminated sector is charged a termination fee of at least 2% of its pledge", for terminations that
+\* the cron processes: the sectors that leave the early-termination queues during a tick, and the sectors that a
+\* callback of this tick terminated before their (quantised) expiration and processed at once.  A sector whose
+\* on-time expiry also falls into the tick is left out (it may have expired normally, which costs nothing).
+QExpOf(M, d, x) == QuantUp(x, M.dls[d].quantUnit, M.dls[d].quantOff)
+DlOfSector(M, n) == CHOOSE d \in Idx(M.dls) : \E p \in Idx(M.dls[d].parts) : n \in S_(M.dls[d].parts[p])
+CronTerminationFee(pre, e, lost) ==
+  (e.ev = "Tick" /\ e.cronOK) =>
+     \A i \in Idx(pre.miners) :
+        LET M1 == pre.miners[i] M2 == MinerByName(e.st, M1.m)
+            tb == Tb(M1)
+            earlyNew == {n \in ((AllT(M2) \ AllT(M1)) \cap tb.nos) \cap AllS(M1) : QExpOf(M1, DlOfSector(M1, n), tb.exp[n]) > e.st.epoch - 1}
+            done == ((EtqSectors(M1) \cup earlyNew) \ EtqSectors(M2)) \cap tb.nos
+            floor == SumBig(done, [n \in done |-> BDivSmall(BMulSmall(tb.pledge[n], 2), 100)])
+            charged == BAdd(SentFrom(e.tr, M1.m, "f099"), BSub(M2.debt, M1.debt))
+        IN  (M1.m \notin lost) => BLeq(floor, charged)
+
 \* ---- C04 "every sector number is allocated at most once in a miner's lifetime": the allocated set only grows, and
 \* a number that appears among the pre-commitments or sectors was not allocated before
 PreNos(M) == {M.pre[i].n : i \in Idx(M.pre)}
